@@ -456,6 +456,8 @@ class CircuitTemplate(AbstractBaseTemplate):
         # add extrinsic inputs to network
         adaptive_steps = is_integration_adaptive(solver, **kwargs)
         net = self if in_place else deepcopy(self)
+        # state bookkeeping lives on the object that is compiled: `self` when in_place, else the deep copy
+        book = net
         if inputs:
             for target, in_array in inputs.items():
                 net = net._add_input(target, in_array, adaptive_steps, simulation_time, vectorize)
@@ -540,12 +542,12 @@ class CircuitTemplate(AbstractBaseTemplate):
 
         # store current state of the network
         for key in net.compute_graph.state_vars:
-            self._state_var_values[key] = net.compute_graph.get_var(key).value
+            book._state_var_values[key] = net.compute_graph.get_var(key).value
 
         # clean up
         if clear:
             net.clear()
-        self._ir = net._ir
+        self._ir = net._ir  # handle to the last compiled IR (needed by clear()); never read by a later compile
 
         return results.loc[cutoff:, :]
 
@@ -604,6 +606,8 @@ class CircuitTemplate(AbstractBaseTemplate):
         else:
             adaptive_steps = is_integration_adaptive(kwargs.pop('solver', 'euler'), **kwargs)
         net = self if in_place else deepcopy(self)
+        # state bookkeeping lives on the object that is compiled: `self` when in_place, else the deep copy
+        book = net
         if inputs:
             for target, in_array in inputs.items():
                 net = net._add_input(target, in_array, adaptive_steps, in_array.shape[0] * step_size, vectorize)
@@ -616,19 +620,19 @@ class CircuitTemplate(AbstractBaseTemplate):
                   vectorize=vectorize, **kwargs)
 
         # impose initial condition
-        for key, val in self._state_var_values.items():
+        for key, val in book._state_var_values.items():
             v = net.compute_graph.get_var(key)
             v.set_value(np.reshape(val, v.shape))
 
         # generate the run function
         func, args, arg_names, state_var_indices = net._ir.get_run_func(func_name=func_name, step_size=step_size,
                                                                         **kwargs)
-        self._state_var_indices = state_var_indices
+        book._state_var_indices = state_var_indices
 
         # set current network state if it was empty before
-        if not self.state:
+        if not book.state:
             for key in net.compute_graph.state_vars:
-                self._state_var_values[key] = net.compute_graph.get_var(key).value
+                book._state_var_values[key] = net.compute_graph.get_var(key).value
 
         # map the backend variable names to the frontend variable names (must happen before clear)
         state_var_map = {}
@@ -645,7 +649,7 @@ class CircuitTemplate(AbstractBaseTemplate):
         # clear the network temporary files
         if clear:
             net.clear()
-        self._ir = net._ir
+        self._ir = net._ir  # handle to the last compiled IR (needed by clear()); never read by a later compile
 
         return func, args, tuple(args_mapped), state_var_map
 
@@ -696,6 +700,8 @@ class CircuitTemplate(AbstractBaseTemplate):
         else:
             adaptive_steps = is_integration_adaptive(kwargs.pop('solver', 'euler'), **kwargs)
         net = self if in_place else deepcopy(self)
+        # state bookkeeping lives on the object that is compiled: `self` when in_place, else the deep copy
+        book = net
         if inputs:
             for target, in_array in inputs.items():
                 net = net._add_input(target, in_array, adaptive_steps, in_array.shape[0] * step_size, vectorize)
@@ -708,7 +714,7 @@ class CircuitTemplate(AbstractBaseTemplate):
                   vectorize=vectorize, **kwargs)
 
         # impose initial condition
-        for key, val in self._state_var_values.items():
+        for key, val in book._state_var_values.items():
             v = net.compute_graph.get_var(key)
             v.set_value(np.reshape(val, v.shape))
 
@@ -716,12 +722,12 @@ class CircuitTemplate(AbstractBaseTemplate):
         func, args, arg_names, state_var_indices = net._ir.get_jacobian_func(func_name=func_name,
                                                                                step_size=step_size,
                                                                                sparse=sparse, **kwargs)
-        self._state_var_indices = state_var_indices
+        book._state_var_indices = state_var_indices
 
         # set current network state if it was empty before
-        if not self.state:
+        if not book.state:
             for key in net.compute_graph.state_vars:
-                self._state_var_values[key] = net.compute_graph.get_var(key).value
+                book._state_var_values[key] = net.compute_graph.get_var(key).value
 
         # map the backend variable names to the frontend variable names (must happen before clear)
         state_var_map = {}
@@ -738,7 +744,7 @@ class CircuitTemplate(AbstractBaseTemplate):
         # clear the network temporary files
         if clear:
             net.clear()
-        self._ir = net._ir
+        self._ir = net._ir  # handle to the last compiled IR (needed by clear()); never read by a later compile
 
         return func, args, tuple(args_mapped), state_var_map
 
